@@ -190,67 +190,12 @@ Definition holds_C16 (c : case_C16) : bool :=
 
 Definition violation_C16 (c : case_C16) : bool := negb (holds_C16 c).
 
-(* ---- known-finding classifiers, over the INPUT (they use the model's path function, never the
-   observation).  A case gets a tag only if every failing clause is explained by a class that is
-   present in the input, so an unrelated violation on the same case is still reported. *)
-Definition model_paths (c : case_C16) : option (list str) :=
-  match export_paths (c_oracle c) (c_jobs c) (c_path c) with ROk ds => Some ds | _ => None end.
-
-(* ---- F20' (what is left of F20 after the repair 3dfa233):
-   (root) a destination that normalises to the export root ('.' or '') is accepted next to other
-          jobs: '.' has no proper token prefix and is nobody's token prefix, '' and '.' are different
-          strings;
-   (lex)  the copy still uses the un-normalised string and os.makedirs works on the lexical path:
-          'a/x/../y' also creates 'a/x' (clashes with a job at 'a/x'), 'a/../' creates its own
-          final location before the final mkdir. *)
+(* no known-finding classifier is left: every defect found for C16 (F6, F7, F15, F18, F19, F20, F20',
+   F21) has been repaired in /repo; any violation is reported as such *)
 Definition is_root (d : str) : bool := is_none (hd_error (loc_of d)).
-Definition lex_locs (d : str) : list (list str) :=
-  let comps := filter (fun c => negb (is_empty c || str_eqb c dot)) (split 47 d) in
-  flat_map (fun cs => match resolve_comps [] cs with Some q => [q] | None => [] end) (lex_prefixes [] comps).
-Definition lex_clash (a b : str) : bool :=
-  existsb (fpath_eqb (loc_of a)) (lex_locs b) || existsb (fpath_eqb (loc_of b)) (lex_locs a).
-Fixpoint exists_pair {A} (r : A -> A -> bool) (l : list A) : bool :=
-  match l with [] => false | x :: t => existsb (r x) t || exists_pair r t end.
-Definition self_clash (d : str) : bool :=
-  let comps := filter (fun c => negb (is_empty c || str_eqb c dot)) (split 47 (pjoin2 TARGET_STR d)) in
-  let locs := List.map (resolve_comps []) (lex_prefixes [] comps) in
-  match last locs None with
-  | Some p => existsb (fun l => match l with Some q => fpath_eqb p q | None => false end) (removelast locs)
-  | None => false
-  end.
-Definition cls_root (c : case_C16) : bool :=
-  match model_paths c with
-  | Some ds => Nat.leb 2 (List.length ds) && existsb is_root ds
-  | None => false
-  end.
-Definition cls_lex (c : case_C16) : bool :=
-  match model_paths c with
-  | Some ds => exists_pair lex_clash ds || existsb self_clash ds
-  | None => false
-  end.
-Definition cls_F20 (c : case_C16) : bool := cls_root c || cls_lex c.
-
-Definition known_tag (c : case_C16) : N :=
-  if holds_C16 c then 0 else
-  let expl_unique := h_unique c || cls_root c in
-  let expl_leaf := h_leafnode c || cls_root c in
-  let expl_clean := h_raise_clean c || cls_F20 c in
-  let expl_round := h_roundtrip c || cls_F20 c in
-  if h_src c && h_export_contained c && h_import_contained c && h_no_overwrite c
-     && expl_unique && expl_leaf && expl_clean && expl_round then
-    (if cls_F20 c then 6 else 0)      (* tags 1-5 and 7 (F7, F15, F6, F18, F19, F21): repaired *)
-  else 0.
-
-Fixpoint known_aux (cs : list case_C16) (i : N) : list N :=
-  match cs with
-  | [] => []
-  | c :: r => let t := known_tag c in
-              if t =? 0 then known_aux r (N.succ i) else (i * 100 + t) :: known_aux r (N.succ i)
-  end.
 
 Definition mismatches_C16 (cs : list case_C16) : list N := indices_where mismatch_C16 cs.
 Definition violations_C16 (cs : list case_C16) : list N := indices_where violation_C16 cs.
-Definition known_C16 (cs : list case_C16) : list N := known_aux cs 0.
 
 (* diagnostics used while developing / in replays: which clauses fail, which part mismatches *)
 Definition diag_C16 (c : case_C16) : list bool :=
